@@ -6,11 +6,16 @@ package main
 
 import (
 	"bytes"
+	"context"
 	"encoding/json"
+	"errors"
 	"fmt"
+	"io"
 	"math"
 	"math/big"
 	"os"
+	"runtime"
+	"strconv"
 	"strings"
 	"sync"
 
@@ -88,31 +93,100 @@ type parser struct {
 	f    func(string) (ton.AccountID, error)
 }
 
-var friendlyParsers = []parser{
+// noDNS is the resolver handed to tongo.NewAccountAddressParser: no string of
+// this check is a domain name, so it is never expected to be asked.
+type noDNS struct{}
+
+func (noDNS) Resolve(context.Context, string) ([]tlb.DNSRecord, error) {
+	return nil, errors.New("harness: no DNS in this check")
+}
+
+// must turns a Must* wrapper (panics with the parser's error) into a parser;
+// a run-time panic (index out of range, nil dereference) stays a panic.
+func must(f func(string) ton.AccountID) func(string) (ton.AccountID, error) {
+	return func(s string) (id ton.AccountID, err error) {
+		defer func() {
+			if v := recover(); v != nil {
+				if _, rt := v.(runtime.Error); rt {
+					panic(v)
+				}
+				e, ok := v.(error)
+				if !ok {
+					e = fmt.Errorf("%v", v)
+				}
+				id, err = ton.AccountID{}, e
+			}
+		}()
+		return f(s), nil
+	}
+}
+
+// parsers every textual form goes through, whatever its kind: the JSON
+// decoder of AccountID, the Must* wrappers and a parser object made with the
+// exported constructor.
+var anyFormParsers = []parser{
+	{"json.Unmarshal(AccountID)", func(s string) (ton.AccountID, error) {
+		// decode over a value that already holds another account
+		a := ton.AccountID{Workchain: 0x5a5a5a5a, Address: ones32()}
+		err := json.Unmarshal([]byte(strconv.Quote(s)), &a)
+		return a, err
+	}},
+	{"ton.MustParseAccountID", must(ton.MustParseAccountID)},
+	{"tongo.MustParseAddress", must(func(s string) ton.AccountID { return tongo.MustParseAddress(s).ID })},
+	{"tongo.NewAccountAddressParser.ParseAddress", func(s string) (ton.AccountID, error) {
+		a, err := tongo.NewAccountAddressParser(noDNS{}).ParseAddress(context.Background(), s)
+		return a.ID, err
+	}},
+}
+
+var friendlyParsers = append([]parser{
 	{"ton.AccountIDFromBase64Url", ton.AccountIDFromBase64Url},
 	{"ton.ParseAccountID", ton.ParseAccountID},
 	{"tongo.ParseAddress", func(s string) (ton.AccountID, error) {
 		a, err := tongo.ParseAddress(s)
 		return a.ID, err
 	}},
-}
+}, anyFormParsers...)
 
-var rawParsers = []parser{
+var rawParsers = append([]parser{
 	{"ton.AccountIDFromRaw", ton.AccountIDFromRaw},
 	{"ton.ParseAccountID", ton.ParseAccountID},
 	{"tongo.ParseAddress", func(s string) (ton.AccountID, error) {
 		a, err := tongo.ParseAddress(s)
 		return a.ID, err
 	}},
-}
+}, anyFormParsers...)
 
 // parseWith runs one parser under the panic monitor and compares.
 func parseWith(p parser, s string, want ton.AccountID, form string, wit map[string]any) {
+	parseMode(p, s, want, form, wit, true)
+}
+
+// parseBeyond does the same for a spelling the statement does not speak about
+// (upper-case hex, ...): tongo accepts it today, a disagreement is recorded
+// as a coverage counter, never as a violation. A panic is a violation anyway.
+func parseBeyond(p parser, s string, want ton.AccountID, form string, wit map[string]any) {
+	parseMode(p, s, want, form, wit, false)
+}
+
+// beyond records a disagreement on an input outside the statement's quantifier.
+func beyond(class string) {
+	R.Count("outside_statement_disagreements/"+class, 1)
+}
+
+func parseMode(p parser, s string, want ton.AccountID, form string, wit map[string]any, strict bool) {
 	var got ton.AccountID
 	var err error
 	if pn := mon.Guard(func() { got, err = p.f(s) }); pn != nil {
 		w := witness(wit, "string", s, "panic", pn.Value)
 		R.Violation("panic@"+pn.Site+"/"+p.name+"/"+form, w)
+		return
+	}
+	if !strict {
+		R.Count("outside_statement_spellings_tried", 1)
+		if err != nil || got != want {
+			beyond(form)
+		}
 		return
 	}
 	if err != nil {
@@ -248,6 +322,12 @@ func posClass(pos int) string {
 }
 
 func mutateOne(i int) {
+	// the Must* wrappers and the parser object share their code with the plain parsers and are slow to refuse
+	// (a panic per string): all of them for the first 600 addresses, the four distinct decoders for the rest
+	parsers := friendlyParsers
+	if i >= 600 {
+		parsers = friendlyParsers[:4]
+	}
 	rng := R.Rng("mutation", i)
 	var h [32]byte
 	switch i % 8 {
@@ -266,7 +346,7 @@ func mutateOne(i int) {
 	s := addr.Friendly(wc, h, bounce, testnet, url)
 	id := ton.AccountID{Workchain: int32(wc), Address: h}
 	wit := map[string]any{"original": s, "workchain": wc, "address": mon.Hex(h[:])}
-	for _, ps := range friendlyParsers {
+	for _, ps := range parsers {
 		parseWith(ps, s, id, "friendly/unmutated", wit)
 	}
 	al := addr.Alphabet(url)
@@ -287,7 +367,7 @@ func mutateOne(i int) {
 					R.HarnessError("reference accepts a single-character substitution: %s -> %s", s, t)
 				}
 			}
-			for _, ps := range friendlyParsers {
+			for _, ps := range parsers {
 				var got ton.AccountID
 				var err error
 				if pn := mon.Guard(func() { got, err = ps.f(t) }); pn != nil {
@@ -307,10 +387,10 @@ func mutateOne(i int) {
 	}
 	R.EvalN(int64(tried), "mut/"+s)
 	R.Count("single_char_substitutions_tried", int64(tried))
-	R.Count("substitution_parse_calls", int64(tried*len(friendlyParsers)))
+	R.Count("substitution_parse_calls", int64(tried*len(parsers)))
 	if i < 2 {
 		buf[17] = al[(strings.IndexByte(al, buf[17])+1)%64]
-		R.Sample(map[string]any{"kind": "single-character substitution", "original": s, "mutated_example": string(buf), "substitutions_tried": tried, "parsers": len(friendlyParsers), "all_rejected": true})
+		R.Sample(map[string]any{"kind": "single-character substitution", "original": s, "mutated_example": string(buf), "substitutions_tried": tried, "parsers": len(parsers), "all_rejected": true})
 	}
 }
 
@@ -319,9 +399,70 @@ func mutateOne(i int) {
 var boundaryWorkchains = []int32{math.MinInt32, math.MinInt32 + 1, -65536, -32769, -32768, -257, -256, -129, -128, -127, -2, -1, 0, 1, 2,
 	126, 127, 128, 129, 255, 256, 257, 32767, 32768, 65535, 65536, math.MaxInt32 - 1, math.MaxInt32}
 
+// chunked delivers the bytes in pieces of 1..maxChunk bytes per Read, as a
+// socket or a pipe does; a decoder must not assume that one Read fills its buffer.
+type chunked struct {
+	b        []byte
+	rng      *mon.Rng
+	maxChunk int
+}
+
+func (c *chunked) Read(p []byte) (int, error) {
+	if len(c.b) == 0 {
+		return 0, io.EOF
+	}
+	n := 1
+	if c.maxChunk > 1 {
+		n = c.rng.Range(1, c.maxChunk)
+	}
+	n = min(n, len(p), len(c.b))
+	copy(p, c.b[:n])
+	c.b = c.b[n:]
+	return n, nil
+}
+
+// retained holds what the encoders returned for the previous account: the
+// next call must not change it (a shared scratch buffer would).
+type retainedForms struct {
+	set            bool
+	wit            map[string]any
+	tl, wantTL     []byte
+	js, wantJS     []byte
+	human, wantHum string
+}
+
+var retained retainedForms
+
+func checkRetained() {
+	r := &retained
+	if !r.set {
+		return
+	}
+	R.Eval("")
+	R.Count("retained_encodings_rechecked", 1)
+	if !bytes.Equal(r.tl, r.wantTL) || !bytes.Equal(r.js, r.wantJS) || r.human != r.wantHum {
+		R.Violation("encoding-changed-by-a-later-call@AccountID.MarshalTL/MarshalJSON/ToHuman",
+			witness(r.wit, "tl_now", mon.Hex(r.tl), "tl_was", mon.Hex(r.wantTL), "json_now", string(r.js), "human_now", r.human, "human_was", r.wantHum))
+	}
+}
+
+// stale is what the destinations of the decoders hold before decoding:
+// decoding a form yields the account of that form, whatever was there before.
+func stale(id ton.AccountID) ton.AccountID {
+	var s ton.AccountID
+	s.Workchain = ^id.Workchain
+	for i := range s.Address {
+		s.Address[i] = ^id.Address[i]
+	}
+	return s
+}
+
 func checkRaw(wc int32, p pat, rng *mon.Rng) {
 	id := ton.AccountID{Workchain: wc, Address: p.h}
 	wit := map[string]any{"workchain": wc, "address": mon.Hex(p.h[:])}
+	if made := ton.NewAccountID(wc, p.h); made == nil || *made != id {
+		R.Violation("constructor-mismatch@NewAccountID/"+wcClass(wc), wit)
+	}
 	want := addr.Raw(wc, p.h, false)
 	var got, str string
 	if pn := mon.Guard(func() { got = id.ToRaw(); str = id.String() }); pn != nil {
@@ -343,8 +484,9 @@ func checkRaw(wc int32, p pat, rng *mon.Rng) {
 	}
 	for _, ps := range rawParsers {
 		parseWith(ps, want, id, "raw/lower", wit)
-		parseWith(ps, upper, id, "raw/upper", wit)
-		parseWith(ps, string(mixed), id, "raw/mixed-case", wit)
+		// upper-case hex is not a form the statement names: counted only
+		parseBeyond(ps, upper, id, "raw/upper", wit)
+		parseBeyond(ps, string(mixed), id, "raw/mixed-case", wit)
 		R.EvalN(3, "")
 	}
 	// short hex: leading zero digits may be left out
@@ -367,7 +509,7 @@ func checkRaw(wc int32, p pat, rng *mon.Rng) {
 			R.Seen("short_hex_lengths", fmt.Sprint(len(hexpart[cut:])))
 			for _, ps := range rawParsers {
 				parseWith(ps, short, id, "raw/short-hex/"+parity, wit)
-				parseWith(ps, strings.ToUpper(short), id, "raw/short-hex-upper/"+parity, wit)
+				parseBeyond(ps, strings.ToUpper(short), id, "raw/short-hex-upper/"+parity, wit)
 				R.EvalN(2, fmt.Sprintf("short/%d/%d/%x", wc, cut, p.h[28:]))
 			}
 		}
@@ -382,11 +524,14 @@ func checkRaw(wc int32, p pat, rng *mon.Rng) {
 		if string(js) != `"`+want+`"` {
 			R.Violation("form-mismatch@AccountID.MarshalJSON/"+wcClass(wc), witness(wit, "got", string(js)))
 		}
-		var back ton.AccountID
+		// the destinations already hold another account
+		back := stale(id)
+		st := stale(id)
 		var holder struct {
 			A ton.AccountID
 			P *ton.AccountID
 		}
+		holder.A, holder.P = stale(id), &st
 		err1 := json.Unmarshal(js, &back)
 		err2 := json.Unmarshal([]byte(`{"A":`+string(js)+`,"P":`+string(js)+`}`), &holder)
 		if err1 != nil || err2 != nil {
@@ -394,9 +539,10 @@ func checkRaw(wc int32, p pat, rng *mon.Rng) {
 		} else if back != id || holder.A != id || holder.P == nil || *holder.P != id {
 			R.Violation("roundtrip-mismatch@AccountID.JSON/"+wcClass(wc), witness(wit, "json", string(js), "got", back.ToRaw()))
 		}
-		// a document written with upper-case hex is the same account
+		// a document written with upper-case hex: not a form of the statement, counted only
+		R.Count("outside_statement_spellings_tried", 1)
 		if json.Unmarshal([]byte(`"`+upper+`"`), &back) != nil || back != id {
-			R.Violation("roundtrip-mismatch@AccountID.JSON/upper/"+wcClass(wc), witness(wit, "json", upper))
+			beyond("json/upper")
 		}
 	}
 	// TL
@@ -412,18 +558,44 @@ func checkRaw(wc int32, p pat, rng *mon.Rng) {
 		R.Violation("form-mismatch@AccountID.MarshalTL/"+wcClass(wc), witness(wit, "got", mon.Hex(b1), "via_tl.Marshal", mon.Hex(b2), "want", mon.Hex(wantTL)))
 		return
 	}
-	var t1, t2 ton.AccountID
+	// what the previous account's encoders returned is still what it was
+	checkRetained()
+	retained = retainedForms{set: true, wit: wit, tl: b1, wantTL: wantTL, js: js, wantJS: []byte(`"` + want + `"`)}
+	if wc >= math.MinInt8 && wc <= math.MaxInt8 {
+		retained.human, retained.wantHum = id.ToHuman(true, false), addr.Friendly(int8(wc), p.h, true, false, true)
+	}
 	trailer := []byte{0xde, 0xad, 0xbe, 0xef}
-	rd := bytes.NewReader(append(append([]byte{}, wantTL...), trailer...))
-	if pn := mon.Guard(func() { e1 = t1.UnmarshalTL(rd) }); pn != nil || e1 != nil {
-		R.Violation("rejected@AccountID.UnmarshalTL/"+wcClass(wc), witness(wit, "err", fmt.Sprint(e1, pn)))
-		return
-	}
-	if t1 != id || rd.Len() != len(trailer) {
-		R.Violation("roundtrip-mismatch@AccountID.TL/"+wcClass(wc), witness(wit, "got", t1.ToRaw(), "unread_bytes", rd.Len()))
-	}
-	if pn := mon.Guard(func() { e2 = tl.Unmarshal(bytes.NewReader(wantTL), &t2) }); pn != nil || e2 != nil || t2 != id {
-		R.Violation("roundtrip-mismatch@tl.Unmarshal(AccountID)/"+wcClass(wc), witness(wit, "err", fmt.Sprint(e2, pn), "got", t2.ToRaw()))
+	withTrailer := append(append([]byte{}, wantTL...), trailer...)
+	// one Read delivers everything / one byte per Read / 1..5 bytes per Read
+	for _, src := range []struct {
+		name string
+		mk   func() (io.Reader, func() int)
+	}{
+		{"whole", func() (io.Reader, func() int) { r := bytes.NewReader(withTrailer); return r, r.Len }},
+		{"one-byte-reads", func() (io.Reader, func() int) {
+			r := &chunked{b: append([]byte{}, withTrailer...), rng: rng, maxChunk: 1}
+			return r, func() int { return len(r.b) }
+		}},
+		{"short-reads", func() (io.Reader, func() int) {
+			r := &chunked{b: append([]byte{}, withTrailer...), rng: rng, maxChunk: 5}
+			return r, func() int { return len(r.b) }
+		}},
+	} {
+		t1, t2 := stale(id), stale(id)
+		rd, left := src.mk()
+		R.Seen("tl_reader_kinds", src.name)
+		R.Eval("")
+		if pn := mon.Guard(func() { e1 = t1.UnmarshalTL(rd) }); pn != nil || e1 != nil {
+			R.Violation("rejected@AccountID.UnmarshalTL/"+src.name+"/"+wcClass(wc), witness(wit, "err", fmt.Sprint(e1, pn)))
+			return
+		}
+		if t1 != id || left() != len(trailer) {
+			R.Violation("roundtrip-mismatch@AccountID.TL/"+src.name+"/"+wcClass(wc), witness(wit, "got", t1.ToRaw(), "unread_bytes", left()))
+		}
+		rd, _ = src.mk()
+		if pn := mon.Guard(func() { e2 = tl.Unmarshal(rd, &t2) }); pn != nil || e2 != nil || t2 != id {
+			R.Violation("roundtrip-mismatch@tl.Unmarshal(AccountID)/"+src.name+"/"+wcClass(wc), witness(wit, "err", fmt.Sprint(e2, pn), "got", t2.ToRaw()))
+		}
 	}
 }
 
@@ -458,6 +630,8 @@ func sectionRaw() {
 		}
 		checkRaw(wc, pat{kind, h}, rng)
 	}
+	checkRetained()
+	retained = retainedForms{}
 }
 
 // ---------------------------------------------------------------- TL-B
@@ -589,6 +763,117 @@ func checkAnycast(depth int, pfx uint32, wc int8, h [32]byte, pfxKind string) {
 	}
 }
 
+// ---- decoding over a value that was used before
+//
+// A TL-B address parsed back is the account it was made from, whatever the
+// destination variable held before: programs declare one MsgAddress (or one
+// message struct) and decode every address of a block into it.
+
+type tlbStep struct {
+	kind  string // "plain", "anycast", "none", "extern"
+	bits  []bool
+	want  *ton.AccountID // nil for none / extern
+	depth int
+}
+
+func bitsOfUint(v uint64, n int) []bool {
+	out := make([]bool, n)
+	for i := 0; i < n; i++ {
+		out[i] = v>>uint(n-1-i)&1 == 1
+	}
+	return out
+}
+
+func genTlbStep(rng *mon.Rng, kind string) tlbStep {
+	st := tlbStep{kind: kind}
+	switch kind {
+	case "none":
+		st.bits = []bool{false, false}
+	case "extern":
+		l := rng.Intn(65)
+		st.bits = append([]bool{false, true}, bitsOfUint(uint64(l), 9)...)
+		for i := 0; i < l; i++ {
+			st.bits = append(st.bits, rng.Bool())
+		}
+	default:
+		wc := int8(rng.Intn(256))
+		h := rand32(rng)
+		var pfx uint32
+		if kind == "anycast" {
+			st.depth = rng.Range(1, 30)
+			pfx = uint32(rng.Uint64()) & (uint32(1)<<uint(st.depth) - 1)
+			if rng.Chance(1, 4) {
+				pfx = uint32(1)<<uint(st.depth) - 1
+			}
+		}
+		st.bits = addr.AddrStdBits(st.depth, pfx, wc, h)
+		st.want = &ton.AccountID{Workchain: int32(wc), Address: addr.Rewrite(h, st.depth, pfx)}
+	}
+	return st
+}
+
+func checkDecodeOver(i int) {
+	rng := R.Rng("tlb-decode-over", i)
+	kinds := []string{"plain", "anycast", "none", "extern"}
+	var steps []tlbStep
+	switch i % 4 {
+	case 0: // the sequence that matters most: an address with anycast info, then one without
+		steps = []tlbStep{genTlbStep(rng, "anycast"), genTlbStep(rng, "plain")}
+	case 1:
+		steps = []tlbStep{genTlbStep(rng, "anycast"), genTlbStep(rng, "anycast"), genTlbStep(rng, "plain")}
+	default:
+		for k := 0; k < rng.Range(2, 6); k++ {
+			steps = append(steps, genTlbStep(rng, mon.Pick(rng, kinds)))
+		}
+	}
+	via := []string{"tlb.Unmarshal(&MsgAddress)", "tlb.Unmarshal(&struct{A MsgAddress})"}[i/4%2]
+	var dst tlb.MsgAddress
+	var holder struct{ A tlb.MsgAddress }
+	prev := "fresh"
+	for k, st := range steps {
+		c := cellOfBits(st.bits)
+		var err error
+		var id2 *ton.AccountID
+		var cur *tlb.MsgAddress
+		if pn := mon.Guard(func() {
+			if i/4%2 == 0 {
+				err, cur = tlb.Unmarshal(c, &dst), &dst
+			} else {
+				err, cur = tlb.Unmarshal(c, &holder), &holder.A
+			}
+			if err == nil && st.want != nil {
+				id2, err = ton.AccountIDFromTlb(*cur)
+			}
+		}); pn != nil {
+			R.Violation("panic@"+pn.Site+"/decode-over", map[string]any{"case": i, "step": k, "panic": pn.Value})
+			return
+		}
+		trans := prev + "-then-" + st.kind
+		prev = st.kind
+		if st.want == nil {
+			continue // addr_none / addr_extern carry no account id: they only change what the destination holds
+		}
+		wit := map[string]any{"case": i, "step": k, "sequence": trans, "via": via, "want": addr.Raw(st.want.Workchain, st.want.Address, false), "anycast_depth": st.depth}
+		R.Eval(fmt.Sprintf("decode-over/%d/%d/%s", i, k, trans))
+		R.Seen("tlb_decode_over_sequences", trans)
+		R.Count("tlb_decodes_over_a_used_value", 1)
+		if err != nil || id2 == nil {
+			R.Violation("rejected@AccountIDFromTlb/decode-over/"+trans, witness(wit, "err", fmt.Sprint(err)))
+			return
+		}
+		if *id2 != *st.want {
+			R.Violation("roundtrip-mismatch@AccountIDFromTlb/decode-over/"+trans, witness(wit, "got", id2.ToRaw()))
+			return
+		}
+		// the decoded address written again is the address that was read
+		out := tboc.NewCell()
+		if err := tlb.Marshal(out, *cur); err != nil || !bitsEqual(bridge.Bits(out.RawBitString()), st.bits) {
+			R.Violation("form-mismatch@MsgAddress.MarshalTLB/decode-over/"+trans, witness(wit, "err", fmt.Sprint(err)))
+			return
+		}
+	}
+}
+
 func sectionTlb() {
 	for w := math.MinInt8; w <= math.MaxInt8; w++ {
 		rng := R.Rng("tlb-wc", w+128)
@@ -601,13 +886,19 @@ func sectionTlb() {
 		rng := R.Rng("tlb-random", i)
 		checkTlb(int8(rng.Intn(256)), pat{"random", rand32(rng)})
 	}
-	// nil account id <-> addr_none
+	// nil account id <-> addr_none: the statement speaks about account ids only; counted, a panic is still a violation
 	var none tlb.MsgAddress
-	if pn := mon.Guard(func() { none = (*ton.AccountID)(nil).ToMsgAddress() }); pn != nil || none.SumType != "AddrNone" {
-		R.Violation("form-mismatch@ToMsgAddress(nil)", map[string]any{"sumtype": string(none.SumType)})
-	} else if id, err := ton.AccountIDFromTlb(none); id != nil || err != nil {
-		R.Violation("roundtrip-mismatch@AccountIDFromTlb(addr_none)", map[string]any{"err": fmt.Sprint(err)})
+	var noneID *ton.AccountID
+	var noneErr error
+	if pn := mon.Guard(func() {
+		none = (*ton.AccountID)(nil).ToMsgAddress()
+		noneID, noneErr = ton.AccountIDFromTlb(none)
+	}); pn != nil {
+		R.Violation("panic@"+pn.Site+"/ToMsgAddress(nil)", map[string]any{"panic": pn.Value})
+	} else if none.SumType != "AddrNone" || noneID != nil || noneErr != nil {
+		beyond("tlb/nil-account-and-addr_none")
 	}
+	R.Count("outside_statement_spellings_tried", 1)
 	R.Eval("tlb/none")
 	// anycast: every depth x several prefixes x several addresses
 	per := R.N(6, 60)
@@ -646,6 +937,10 @@ func sectionTlb() {
 			}
 			checkAnycast(depth, pfx, wc, h, kind)
 		}
+	}
+	nd := R.N(2000, 40000)
+	for i := 0; i < nd; i++ {
+		checkDecodeOver(i)
 	}
 }
 
@@ -697,6 +992,18 @@ func checkShard(prefix uint64, n int, rng *mon.Rng) {
 	s := addr.MakeShard(prefix, n)
 	lc := lenClass(n)
 	wit := map[string]any{"shard": fmt.Sprintf("%016x", s), "prefix_len": n}
+	// The statement quantifies over prefix lengths 0..60 (block.tlb: shard_pfx_bits:(#<= 60)).
+	// Longer prefixes are tried as well, but a disagreement there is a coverage counter, not a violation.
+	viol := func(sig string, w map[string]any) {
+		if n > 60 {
+			beyond("shard-prefix-longer-than-60/" + strings.SplitN(sig, "@", 2)[0])
+			return
+		}
+		R.Violation(sig, w)
+	}
+	if n > 60 {
+		R.Count("outside_statement_spellings_tried", 1)
+	}
 	var sid ton.ShardID
 	var err error
 	var enc int64
@@ -712,14 +1019,54 @@ func checkShard(prefix uint64, n int, rng *mon.Rng) {
 	R.Eval(fmt.Sprintf("shard/%016x", s))
 	R.Seen("shard_prefix_lengths", fmt.Sprint(n))
 	if err != nil {
-		R.Violation("rejected@ParseShardID/"+lc, witness(wit, "err", err.Error()))
+		viol("rejected@ParseShardID/"+lc, witness(wit, "err", err.Error()))
 		return
 	}
 	if uint64(enc) != s {
-		R.Violation("encode-mismatch@ShardID.Encode/"+lc, witness(wit, "got", fmt.Sprintf("%016x", uint64(enc))))
+		viol("encode-mismatch@ShardID.Encode/"+lc, witness(wit, "got", fmt.Sprintf("%016x", uint64(enc))))
 	}
-	if s2, err := tongo.ParseShardID(int64(s)); err != nil || s2 != sid {
-		R.Violation("mismatch@tongo.ParseShardID-vs-ton.ParseShardID/"+lc, wit)
+	// the other exported ways to the same value: root-package alias and the Must* wrappers
+	for _, alt := range []struct {
+		name string
+		f    func() (ton.ShardID, error)
+	}{
+		{"tongo.ParseShardID", func() (ton.ShardID, error) { return tongo.ParseShardID(int64(s)) }},
+		{"ton.MustParseShardID", func() (ton.ShardID, error) { return ton.MustParseShardID(int64(s)), nil }},
+		{"tongo.MustParseShardID", func() (ton.ShardID, error) { return tongo.MustParseShardID(int64(s)), nil }},
+	} {
+		var s2 ton.ShardID
+		var e2 error
+		var enc2 int64
+		if pn := mon.Guard(func() {
+			if s2, e2 = alt.f(); e2 == nil {
+				enc2 = s2.Encode()
+			}
+		}); pn != nil {
+			viol("rejected@"+alt.name+"/"+lc, witness(wit, "panic", pn.Value))
+		} else if e2 != nil || uint64(enc2) != s || s2 != sid {
+			viol("encode-mismatch@"+alt.name+"/"+lc, witness(wit, "err", fmt.Sprint(e2), "got", fmt.Sprintf("%016x", uint64(enc2))))
+		}
+	}
+	// the textual block id carries the shard id in hex: written and read back it is the same shard
+	{
+		bid := ton.BlockID{Workchain: int32(int8(rng.Intn(3)) - 1), Shard: s, Seqno: uint32(rng.Uint64())}
+		var txt string
+		var back ton.BlockID
+		var perr error
+		if pn := mon.Guard(func() { txt = bid.String(); back, perr = ton.ParseBlockID(txt) }); pn != nil {
+			R.Violation("panic@"+pn.Site+"/ParseBlockID(BlockID.String)/"+lc, witness(wit, "panic", pn.Value))
+		} else {
+			R.Eval("")
+			R.Count("block_id_text_roundtrips", 1)
+			if s>>60 == 0 {
+				R.Count("block_id_text_roundtrips_with_leading_zero_digit", 1)
+			}
+			if perr != nil {
+				viol("rejected@ParseBlockID(BlockID.String)/"+lc, witness(wit, "text", txt, "err", perr.Error()))
+			} else if back.Shard != s {
+				viol("shard-mismatch@ParseBlockID(BlockID.String)/"+lc, witness(wit, "text", txt, "got", fmt.Sprintf("%016x", back.Shard)))
+			}
+		}
 	}
 	// accounts on both sides of every boundary
 	type acc struct {
@@ -768,7 +1115,7 @@ func checkShard(prefix uint64, n int, rng *mon.Rng) {
 			R.Count("account_matches_expected_true", 1)
 		}
 		if got != want {
-			R.Violation("match-mismatch@MatchAccountID/"+lc+"/"+a.kind, witness(wit, "account", mon.Hex(a.a[:]), "got", got, "want", want))
+			viol("match-mismatch@MatchAccountID/"+lc+"/"+a.kind, witness(wit, "account", mon.Hex(a.a[:]), "got", got, "want", want))
 		}
 	}
 	// block shards: ancestors, descendants, siblings, unrelated
@@ -808,7 +1155,12 @@ func checkShard(prefix uint64, n int, rng *mon.Rng) {
 		R.Eval("")
 		R.Count("block_matches_checked", 1)
 		if got != want {
-			R.Violation("match-mismatch@MatchBlockID/"+lc+"/"+b.kind, witness(wit, "block_shard", fmt.Sprintf("%016x", b.t), "got", got, "want", want))
+			if bl, _ := addr.ShardLen(b.t); bl > 60 && n <= 60 {
+				// the block's shard id is longer than any shard the statement speaks about
+				beyond("shard-prefix-longer-than-60/block-shard")
+				continue
+			}
+			viol("match-mismatch@MatchBlockID/"+lc+"/"+b.kind, witness(wit, "block_shard", fmt.Sprintf("%016x", b.t), "got", got, "want", want))
 		}
 	}
 }
@@ -1027,6 +1379,14 @@ func sectionADNL() {
 				continue
 			}
 			R.Eval("")
+			if s != got {
+				// the ".adnl" suffix is a convenience of the parser, not the base32 form of the statement: counted only
+				R.Count("outside_statement_spellings_tried", 1)
+				if err != nil || [32]byte(back) != a {
+					beyond("adnl/with-.adnl-suffix")
+				}
+				continue
+			}
 			if err != nil {
 				R.Violation("rejected@ParseADNLAddress/"+kind, witness(wit, "string", s, "err", err.Error()))
 			} else if [32]byte(back) != a {
@@ -1039,13 +1399,58 @@ func sectionADNL() {
 	}
 }
 
+// ---------------------------------------------------------------- encoders called from several goroutines
+//
+// The forms of an account do not depend on what other goroutines convert at
+// the same time (AccountID is a plain value; servers convert addresses on
+// every request goroutine).
+func sectionConcurrentEncoders() {
+	n := R.N(4000, 40000)
+	var wg sync.WaitGroup
+	for w := 0; w < 8; w++ {
+		wg.Add(1)
+		go func(w int) {
+			defer wg.Done()
+			for i := w; i < n; i += 8 {
+				rng := R.Rng("concurrent-encoders", i)
+				wc := int8(rng.Intn(256))
+				h := rand32(rng)
+				id := ton.AccountID{Workchain: int32(wc), Address: h}
+				bounce, testnet := rng.Bool(), rng.Bool()
+				var hum, raw string
+				var tlb1, js []byte
+				var e1, e2 error
+				if pn := mon.Guard(func() {
+					hum, raw = id.ToHuman(bounce, testnet), id.ToRaw()
+					tlb1, e1 = id.MarshalTL()
+					js, e2 = json.Marshal(id)
+				}); pn != nil {
+					R.Violation("panic@"+pn.Site+"/concurrent-encoders", map[string]any{"panic": pn.Value})
+					return
+				}
+				// look at the results only after other goroutines had a chance to run their own conversions
+				runtime.Gosched()
+				R.Eval("")
+				wantRaw := addr.Raw(int32(wc), h, false)
+				if e1 != nil || e2 != nil || hum != addr.Friendly(wc, h, bounce, testnet, true) || raw != wantRaw ||
+					!bytes.Equal(tlb1, addr.TL(int32(wc), h)) || string(js) != `"`+wantRaw+`"` {
+					R.Violation("form-mismatch@concurrent-encoders", map[string]any{"workchain": wc, "address": mon.Hex(h[:]), "human": hum, "raw": raw, "tl": mon.Hex(tlb1), "json": string(js), "err": fmt.Sprint(e1, e2)})
+					return
+				}
+			}
+		}(w)
+	}
+	wg.Wait()
+	R.Count("accounts_encoded_on_8_goroutines", int64(n))
+}
+
 func main() {
 	tier := "quick"
 	if len(os.Args) > 1 {
 		tier = os.Args[1]
 	}
 	R = mon.Start("C17", tier)
-	R.Rule = "each case converts one account id / shard id / ADNL address with tongo and with the reference model (harness/ref/addr) and compares strings, bytes, bits and the values parsed back by every exported parser (ton.AccountIDFromBase64Url, ton.AccountIDFromRaw, ton.ParseAccountID, tongo.ParseAddress, JSON, TL, TL-B); every one of the 48x63 single-character substitutions of a user-friendly form must be rejected by every parser; shard match/encode/child/parent (through ton.GetParents) compared with prefix arithmetic; non-trivial = a form or predicate actually compared; distinct = distinct (value, form) fingerprints; repeated parser calls on the same value count as evaluations only"
+	R.Rule = "each case converts one account id / shard id / ADNL address with tongo and with the reference model (harness/ref/addr) and compares strings, bytes, bits and the values parsed back by every exported parser (ton.AccountIDFromBase64Url, ton.AccountIDFromRaw, ton.ParseAccountID, tongo.ParseAddress, JSON, TL, TL-B); every one of the 48x63 single-character substitutions of a user-friendly form must be rejected by every parser; shard match/encode/child/parent (through ton.GetParents) compared with prefix arithmetic; non-trivial = a form or predicate actually compared; distinct = distinct (value, form) fingerprints; repeated parser calls on the same value count as evaluations only. Added input classes: every text form also goes through json.Unmarshal(AccountID) over a destination that already holds another account, the Must* wrappers and tongo.NewAccountAddressParser; TL bytes are read through readers that deliver 1 byte / 1..5 bytes per Read; JSON/TL/TL-B destinations are pre-filled (decode-over sequences anycast -> plain -> none/extern on one tlb.MsgAddress variable or struct field); what MarshalTL/MarshalJSON/ToHuman returned for the previous account is re-compared after the next call; encoders run on 8 goroutines; BlockID.String -> ParseBlockID keeps the shard id. Spellings the statement does not name (upper/mixed-case hex, the .adnl suffix, nil account <-> addr_none, shard prefixes longer than 60 bits) are tried and only counted (outside_statement_*)"
 	R.Assume("reference model harness/ref/addr is correct: pinned at start-up by the literal vectors in tongo's tests and by every user-friendly address literal in the repository")
 	R.Assume("anycast: the account id of addr_std with anycast is the address with its first depth bits replaced by rewrite_pfx (what ton.AccountIDFromTlb documents by its code and what the node does when it routes)")
 	R.Assume("the bounce flag reported by tongo.ParseAddress is outside the statement and is not compared")
@@ -1056,7 +1461,7 @@ func main() {
 	}
 	R.Extra("model_selfcheck_vectors", nvec)
 	R.SetExhaustive(false)
-	R.Extra("exhaustive_subspaces", []string{"all 256 int8 workchains (user-friendly form, TL-B)", "all 48x63 single-character substitutions of each sampled 48-character form", "all anycast depths 1..30", "all shard prefix lengths 0..63", "every prefix-bit boundary of each sampled shard"})
+	R.Extra("exhaustive_subspaces", []string{"all 256 int8 workchains (user-friendly form, TL-B)", "all 48x63 single-character substitutions of each sampled 48-character form", "all anycast depths 1..30", "all shard prefix lengths 0..60 (61..63 tried, counted only)", "every prefix-bit boundary of each sampled shard"})
 
 	sectionFriendly()
 	sectionMutations()
@@ -1065,6 +1470,7 @@ func main() {
 	sectionShards()
 	sectionParents()
 	sectionADNL()
+	sectionConcurrentEncoders()
 
 	h := rand32(R.Rng("sample", 0))
 	R.Sample(map[string]any{"kind": "forms of one account", "raw": addr.Raw(-1, h, false), "friendly_bounceable": addr.Friendly(-1, h, true, false, true),
